@@ -273,16 +273,18 @@ class PyMarkdownApi:
         """
         self.__verify_string_argument_not_empty("string_to_scan", string_to_scan)
 
+        temp_file_name = ""
         try:
             # Keep the line endings of the string as they are, both when writing it
             # out and when reading the (possibly fixed) document back in.
             with tempfile.NamedTemporaryFile(
                 "wt", suffix=".md", encoding="utf-8", newline="", delete=False
             ) as temp_file:
+                temp_file_name = temp_file.name
                 temp_file.write(string_to_scan)
 
             scan_arguments = self.__build_common_arguments("fix")
-            scan_arguments.append(temp_file.name)
+            scan_arguments.append(temp_file_name)
 
             this_presentation = _ApiPresentation()
             scanner_instance = PyMarkdownLint(
@@ -302,14 +304,16 @@ class PyMarkdownApi:
                 )
             fix_result = self.__handle_fix_results(return_code, this_presentation)
             with open(
-                temp_file.name, "rt", encoding="utf-8", newline=""
+                temp_file_name, "rt", encoding="utf-8", newline=""
             ) as fixed_file:
                 return PyMarkdownFixStringResult(
                     bool(fix_result.files_fixed), fixed_file.read()
                 )
         finally:
-            if os.path.isfile(temp_file.name):  # pragma: no cover
-                os.remove(temp_file.name)
+            if temp_file_name and os.path.isfile(
+                temp_file_name
+            ):  # pragma: no cover
+                os.remove(temp_file_name)
 
     def list_path(
         self,
